@@ -73,7 +73,7 @@ def run_unit(unit, ctx):
         names = eb.state
         x0 = {s: rng.gauss(0, 1) for s in names}
         P0 = gen.spd(rng, len(names), rng.choice(["rand", "ident", "diag"]))
-        t0 = rng.choice([0.0, 5.0, -2.0])
+        t0 = rng.choice([0.0, 5.0, -2.0, 1.0e5, 1.7e9 + round(rng.uniform(0, 1e6), 3)])
         cmds = ["CFG", eb.cal_cmd(defn["calibration_map"]), eb.mfi_cmd(t0, x0, P0)]
         ticks = []
         held_t = t0
